@@ -238,6 +238,11 @@ def run(ck, tier):
     from .. import ownership as _own2
     ck.rule('R14', 'no unsound memoisation (a caching decorator on a method, or on a function that returns a mutable container) in the modules this property rests on')
     ck.guard(_own2.rule_no_unsafe_memo, ck, cx, 'R14', ('pymodbus.transaction', 'pymodbus.client.sync'), 'a reply or frame cached from an earlier transaction is used for this one')
+    from .. import ownership as _own3
+    ck.guard(_own3.rule_instance_owned, ck, cx, 'R15', _own3.SYNC_CLIENTS, 'the receive buffer / transaction table of one client is used by another client of the process', 4, None, ('framer', 'transaction'))
+    from ..share import import_findings as _imp2
+    ck.rule('R16', 'the TCP receiver accepts every legal MBAP length 2..254: a well-formed maximum-size reply is returned to the caller (shared with C03 R2)')
+    _imp2(ck, 'C03', 'R16', ('R2',), 'a well-formed reply of a conformant server is dropped and the caller gets an error object', detail_prefixes=('mbap-length',))
     return cx.idx
 
 
